@@ -58,7 +58,7 @@ def wide_schema():
                        F("lambda", 4, "int64", "repeated", pyname="lambda_"), F("foo_bar", 5, "string"), F("camelCase", 6, "int32", pyname="camel_case"),
                        F("is", 7, "message", msg="Inner", pyname="is_"), F("global", 8, "sint32", "oneof", group="g", pyname="global_"),
                        F("other_member", 9, "string", "oneof", group="g"), F("HTTPStatus", 10, "int32", pyname="http_status"),
-                       F("value", 11, "bytes")]
+                       F("value", 11, "bytes"), F("type", 12, "string"), F("match", 13, "int32"), F("case", 14, "int64", "repeated")]
     return {"types": types, "enums": {"E": ENUM_E}}
 
 
